@@ -239,6 +239,8 @@ func runC14(c *Ctx) {
 			pats = append(pats, string(rs))
 		}
 		pats = append(pats, randStr(c.rng, 3))
+		// patterns longer than the receiver (by one byte, one character, several)
+		pats = append(pats, s+"a", "a"+s, s+s+"é", s+"é", "😀"+s, s+"ab")
 		for _, p := range pats {
 			hp := hexs(p)
 			pv := system.String(p)
@@ -246,8 +248,19 @@ func runC14(c *Ctx) {
 			c.Emit("sidx "+hs+" "+hp, outTokens(oi), nt)
 			oc := eval("%s.contains(%a0)", r, pv)
 			c.Emit("scontains "+hs+" "+hp, outTokens(oc), nt)
-			c.Emit("sstarts "+hs+" "+hp, outTokens(eval("%s.startsWith(%a0)", r, pv)), nt)
-			c.Emit("sends "+hs+" "+hp, outTokens(eval("%s.endsWith(%a0)", r, pv)), nt)
+			ost := eval("%s.startsWith(%a0)", r, pv)
+			oen := eval("%s.endsWith(%a0)", r, pv)
+			c.Emit("sstarts "+hs+" "+hp, outTokens(ost), nt)
+			c.Emit("sends "+hs+" "+hp, outTokens(oen), nt)
+			if L > 0 {
+				c.Law(outTokens(ost) == fmt.Sprintf("ok:[B:%v]", strings.HasPrefix(s, p)), "C14/prefix-suffix", "startsWith(t) holds exactly when the receiver begins with the characters of t", fmt.Sprintf("%q.startsWith(%q)", s, p), outTokens(ost))
+				c.Law(outTokens(oen) == fmt.Sprintf("ok:[B:%v]", strings.HasSuffix(s, p)), "C14/prefix-suffix", "endsWith(t) holds exactly when the receiver ends with the characters of t", fmt.Sprintf("%q.endsWith(%q)", s, p), outTokens(oen))
+				wantIdx := -1
+				if bi := strings.Index(s, p); bi >= 0 {
+					wantIdx = utf8.RuneCountInString(s[:bi])
+				}
+				c.Law(outTokens(oi) == fmt.Sprintf("ok:[I:%d]", wantIdx), "C14/indexof-oracle", "indexOf(t) is the position, counted in characters, of the first occurrence of t (-1 if there is none)", fmt.Sprintf("%q.indexOf(%q)", s, p), outTokens(oi))
+			}
 			rep := randStr(c.rng, 2)
 			orp := eval("%s.replace(%a0, %a1)", r, pv, system.String(rep))
 			c.Emit("srepl "+hs+" "+hp+" "+hexs(rep), outTokens(orp), nt)
